@@ -666,6 +666,12 @@ where
 
         // Collect the results from all threads and group them.
         // Note that this will happen as soon as data are available
+        #[cfg(fclones_verif)]
+        let rx = crate::verif::reorder(
+            rx,
+            &crate::verif::numbered_site("rehash"),
+            |f: &HashedFileInfo| f.file_info.path.clone(),
+        );
         while let Ok(hashed_file) = rx.recv() {
             hash_map_ref.add(hashed_file);
         }
@@ -1224,6 +1230,12 @@ pub fn group_files(config: &GroupConfig, log: &dyn Log) -> Result<Vec<FileGroup<
 
     drop(spinner);
     let matching_files = scan_files(&ctx);
+    #[cfg(fclones_verif)]
+    let matching_files = vec![crate::verif::reorder_vec(
+        matching_files.into_iter().flatten().collect(),
+        "scan",
+        |f: &FileInfo| f.path.clone(),
+    )];
 
     let mut groups = match &ctx.hasher.transform {
         Some(_transform) => {
